@@ -13,6 +13,10 @@ pub struct Scenario {
     pub fs_seed: u64,
     /// (host, op): hosts have independent trees with identical path names
     pub ops: Vec<(u8, FsOp)>,
+    /// the histories run as host programs inside a turmoil::Sim (every other one with the hosts taking their
+    /// turns in a seeded random order) instead of on directly driven filesystems
+    #[serde(default)]
+    pub in_sim: bool,
 }
 
 pub struct C10;
@@ -605,7 +609,7 @@ impl Property for C10 {
             guard_step(&mut gss[h], &op, &mo, &models[h]);
             ops.push((h as u8, op));
         }
-        Scenario { guarded, fs_seed, ops }
+        Scenario { guarded, fs_seed, ops, in_sim: false }
     }
 
     fn variants(base: &Scenario, _tier: Tier) -> Vec<Scenario> {
@@ -618,10 +622,30 @@ impl Property for C10 {
             t.ops.retain(|(_, o)| !o.is_sync());
             v.push(t);
         }
+        if base.guarded && base.ops.iter().any(|(h, _)| *h == 1) && base.ops.iter().any(|(h, _)| *h == 0) {
+            // two hosts: the same histories once more as host programs inside one simulation
+            let mut t = base.clone();
+            t.in_sim = true;
+            v.push(t);
+        }
         v
     }
 
     fn run(sc: &Scenario, keep: bool) -> Report {
+        if sc.in_sim {
+            let list = |h: u8| -> Vec<FsOp> { sc.ops.iter().filter(|(x, o)| *x == h && !matches!(o, FsOp::Crash)).map(|(_, o)| o.clone()).collect() };
+            let sc7 = crate::props::c07::Scenario {
+                guarded: sc.guarded,
+                knobs: FsKnobs { sync_pct: 0, block_size: 0, fs_seed: sc.fs_seed },
+                ops: list(0),
+                in_sim: true,
+                ops2: list(1),
+                finish_before_crash: false,
+            };
+            let mut r = crate::props::c07::run_in_sim(&sc7, keep);
+            r.probes.inc("two_hosts_as_programs_inside_one_simulation");
+            return r;
+        }
         let mut log = Log::new(keep);
         let hosts = sc.ops.iter().map(|(h, _)| *h as usize + 1).max().unwrap_or(1);
         let mut reals: Vec<RealFs> =
@@ -724,7 +748,7 @@ impl Property for C10 {
     fn shrink(sc: &Scenario) -> Vec<Scenario> {
         shrink_ops(&sc.ops)
             .into_iter()
-            .map(|ops| Scenario { guarded: sc.guarded, fs_seed: sc.fs_seed, ops })
+            .map(|ops| Scenario { guarded: sc.guarded, fs_seed: sc.fs_seed, ops, in_sim: sc.in_sim })
             // a guarded scenario stays guarded while shrinking, so the minimiser cannot slide from a
             // new violation into a known one
             .filter(|c| !sc.guarded || !ALL_KF.iter().any(|k| Self::known_match(k, c, &Violation::new("", ""))))
